@@ -34,8 +34,29 @@ BIG = dict(kinds=["body", "div", "div", "p", "p", "span", "span", "span", "br", 
            regid=[0] * 19 + [1, 1, 2], nd=2, nids=2)
 
 # many interchangeable children: parents with a dozen and more children, long sibling chains
-WIDE = dict(kinds=["body", "div", "p", "p"] + ["span"] * 22 + ["text"] * 8 + ["br"] * 4 + ["region", "region"],
-            regid=[0] * 38 + [1, 2], nd=1, nids=2)
+WIDE = dict(kinds=["body", "div", "p", "p"] + ["span"] * 64 + ["text"] * 8 + ["br"] * 4 + ["region", "region"],
+            regid=[0] * 80 + [1, 2], nd=1, nids=2)
+
+
+def wide_start(uni, rng):
+  """A state in which one paragraph already holds several dozen spans (histories of a few dozen calls cannot build that up)."""
+  S = uni.empty_state()
+  n = uni.n
+
+  def link(p, c):
+    S["parent"][c - 1] = p
+    S["kids"][p - 1].append(c)
+  for e in range(1, n + 1):
+    if uni.kinds[e - 1] != "region":
+      S["owner"][e - 1] = 1
+  S["body"][0] = 1
+  link(1, 2)
+  link(2, 3)
+  link(2, 4)
+  spans = [e for e in range(1, n + 1) if uni.kinds[e - 1] == "span"]
+  for c in spans[:rng.choice([30, 47, 48, 49, 56])]:
+    link(3, c)
+  return S
 
 CFG_MODEL = """CONSTANTS
   {consts}
@@ -286,17 +307,19 @@ def plausible_op(uni, w, S, rng, catalogue):
   return mkop("PutInitial", d=rng.randint(1, uni.nd), prop=prop, tok=tok)
 
 
-def run_histories(uni, catalogue, rng, count, length):
+def run_histories(uni, catalogue, rng, count, length, start=None):
   recs = []
   meta = []
   for _ in range(count):
-    w = World(uni, None, catalogue)
+    w = World(uni, start(uni, rng) if start else None, catalogue)
     pre = w.project()
     S0 = pre
     steps = []
     smeta = []
+    op = None
     for _k in range(length):
-      op = plausible_op(uni, w, pre, rng, catalogue)
+      # now and then the very same call once more (a second removal of the same child, a second push, ...)
+      op = op if (op is not None and rng.random() < 0.1) else plausible_op(uni, w, pre, rng, catalogue)
       ok = w.apply(op)
       post = w.project()
       st = {"op": op, "ok": ok, "same": post == pre}
@@ -398,7 +421,7 @@ def run(ctx):
         ctx.nontrivial(("hist", dumps(st["op"]), dumps(st["post"]["kids"])))
   validate(ctx, uni, recs, meta, catalogue, "histories")
   wuni = Universe(WIDE["kinds"], WIDE["regid"], WIDE["nd"], WIDE["nids"])
-  wrecs, wmeta = run_histories(wuni, catalogue, ctx.rng, 600 if thorough else 50, 60)
+  wrecs, wmeta = run_histories(wuni, catalogue, ctx.rng, 600 if thorough else 30, 60, start=wide_start)
   ctx.evaluations += sum(len(r["steps"]) for r in wrecs)
   ctx.traces += len(wrecs)
   ctx.count("widest_parent_in_wide_histories", max((len(k) for r in wrecs for st in r["steps"] if st.get("post") for k in st["post"]["kids"]), default=0))
